@@ -48,7 +48,7 @@ inductive Act where
   | accA (N : Nat) (d : RxData) (snr : Int)
   /-- `rx2_complete` -/
   | tmo
-  deriving Repr
+  deriving DecidableEq, Repr
 
 /-- what is reported for an accepted frame when the uplink counter is `fu` -/
 def accOut (fu N : Nat) (d : RxData) : RxOut :=
